@@ -69,6 +69,10 @@ class Mode%(i)d:
 
     def on_disable(self):
         _drv.HOOK(self.MODE_NAME, "on_disable")
+
+    def __len__(self):
+        # mode 2 is an object that is falsy (a mode that is also a - currently empty - container of steps)
+        return 0 if %(i)d == 2 else 1
 '''
 
 
